@@ -18,6 +18,7 @@ admit. Value-origin rules pin the lookup key to the authenticated id of the acce
 `len` to the direction-agnostic peer map; a who-may-call rule shows nothing but this function reads
 the limit (explicit and background dials are never limited); the whole decision runs under the
 connect timeout.
+The count compared with the limit is current: at handler exit the peer leaves the map before the request tasks are shut down (C09.3 re-evaluated).
 """
 TRUSTED = ["KnownPeers is a HashMap<PeerId, PeerInfo> behind a RwLock", "quinn closes a connection whose last handle is dropped"]
 NOT_DECIDED = ["truly simultaneous arrivals (excluded by the property)", "slot accounting over histories beyond `len()` reading the live map",
